@@ -280,6 +280,18 @@ def refusal_matrix():
             ok_before, {"op": "upload", "index": 0x2001, "sub": sub},
             {"op": "download", "index": 0x2001, "sub": sub, "data": b"\x01\x02", "style": "exp"},
             {"op": "download", "index": 0x2001, "sub": sub, "data": b"\x01\x02", "style": "seg_nosize"}, ok_after]}
+    # a record / an array that is present but has no members at all: every sub-index is a missing one
+    od_empty = [good, {"kind": "record", "index": 0x2001, "name": "rec", "members": []},
+                {"kind": "array", "index": 0x2200, "name": "arr", "members": []}]
+    for index in (0x2001, 0x2200):
+        for sub in (0, 1, 2, 255):
+            yield {"kind": "server", "od": od_empty, "ops": [
+                ok_before, {"op": "upload", "index": index, "sub": sub},
+                {"op": "download", "index": index, "sub": sub, "data": b"\x01\x02", "style": "exp"},
+                {"op": "download", "index": index, "sub": sub, "data": b"123456789", "style": "seg_size"}, ok_after]}
+            yield {"kind": "client_api", "od": od_empty, "ops": [
+                {"op": "upload", "index": index, "sub": sub},
+                {"op": "download", "index": index, "sub": sub, "data": b"\x01\x02", "force": False}]}
     # wrong toggle in both directions, as first segment and later
     for first in (True, False):
         pre = [] if first else [ok_before]
